@@ -922,7 +922,10 @@ func (c *wsConn) handleWsConn(ctx context.Context) {
 			action = "pong"
 			vhook("main.pong", c)
 
+			// c.conn is replaced by the reconnect goroutine under writeLk
+			c.writeLk.Lock()
 			c.resetReadDeadline()
+			c.writeLk.Unlock()
 		case <-timeoutCh:
 			if c.pingInterval == 0 {
 				// pings not running, this is perfectly normal
@@ -935,9 +938,9 @@ func (c *wsConn) handleWsConn(ctx context.Context) {
 			if err := c.conn.Close(); err != nil {
 				log.Warnw("timed-out websocket close error", "error", err)
 			}
+			log.Errorw("Connection timeout", "remote", c.conn.RemoteAddr(), "lastAction", action)
 			vhook("w.end", c, "site", "timeoutClose")
 			c.writeLk.Unlock()
-			log.Errorw("Connection timeout", "remote", c.conn.RemoteAddr(), "lastAction", action)
 			// The server side does not perform the reconnect operation, so need to exit
 			if c.connFactory == nil {
 				return
